@@ -34,21 +34,85 @@ func firstRecoverDefer(fn *ssa.Function) (*ssa.Function, string) {
 	if len(fn.Blocks) == 0 {
 		return nil, "no body"
 	}
-	for _, in := range fn.Blocks[0].Instrs {
-		switch in := in.(type) {
-		case *ssa.Defer:
-			if h := recoverTarget(in); h != nil {
-				return h, ""
+	// on every path from the entry, a recover handler is deferred before anything that can panic; the paths may
+	// branch (a conditional `defer wg.Done()` in front of it, say) as long as nothing that can panic is evaluated
+	var handler *ssa.Function
+	why := ""
+	seen := map[*ssa.BasicBlock]bool{}
+	var visit func(b *ssa.BasicBlock)
+	visit = func(b *ssa.BasicBlock) {
+		if seen[b] || why != "" {
+			return
+		}
+		seen[b] = true
+		for _, in := range b.Instrs {
+			switch in := in.(type) {
+			case *ssa.Defer:
+				if h := recoverTarget(in); h != nil {
+					if handler == nil {
+						handler = h
+					}
+					return
+				}
+				// another defer (e.g. wg.Done): fine, keeps looking
+			case *ssa.Alloc, *ssa.MakeClosure, *ssa.Store, *ssa.DebugRef, *ssa.FieldAddr, *ssa.UnOp, *ssa.MakeInterface, *ssa.Phi, *ssa.ChangeType, *ssa.BinOp:
+			case *ssa.If, *ssa.Jump:
+				for _, s := range b.Succs {
+					visit(s)
+				}
+				return
+			case *ssa.Call:
+				why = "the call " + calleeName(in.Common()) + " precedes any deferred recover handler"
+				return
+			case *ssa.Return, *ssa.RunDefers:
+				if b == fn.Blocks[0] {
+					why = "the entry block defers no recover handler"
+				} else {
+					why = "a path through the function defers no recover handler"
+				}
+				return
+			default:
+				why = fmt.Sprintf("%T precedes any deferred recover handler", in)
+				return
 			}
-			// another defer (e.g. wg.Done): fine, keeps looking
-		case *ssa.Alloc, *ssa.MakeClosure, *ssa.Store, *ssa.DebugRef, *ssa.FieldAddr, *ssa.UnOp, *ssa.MakeInterface, *ssa.Phi, *ssa.ChangeType:
-		case *ssa.Call:
-			return nil, "the call " + calleeName(in.Common()) + " precedes any deferred recover handler"
-		default:
-			return nil, fmt.Sprintf("%T precedes any deferred recover handler", in)
 		}
 	}
-	return nil, "the entry block defers no recover handler"
+	visit(fn.Blocks[0])
+	if why != "" {
+		return nil, why
+	}
+	if handler == nil {
+		return nil, "the entry block defers no recover handler"
+	}
+	return handler, ""
+}
+
+// goTargetSignals: the started function signals a WaitGroup (calls or defers Done) for the arguments of this very go
+// statement (a constant argument may switch the signalling off: the untracked flavour of a shared goroutine body).
+func goTargetSignals(target *ssa.Function, g *ssa.Go) bool {
+	bind := map[ssa.Value]AV{}
+	for i, p := range target.Params {
+		if i < len(g.Call.Args) {
+			if k, ok := g.Call.Args[i].(*ssa.Const); ok && k.Value != nil {
+				bind[p] = AV{C: k.Value, T: constTerm(k)}
+			}
+		}
+	}
+	if len(bind) == 0 {
+		return true
+	}
+	paths, err := WalkFunc(target, WalkCfg{MaxVisits: 1, MaxPaths: 2000, NoInline: true, Bind: bind})
+	if err != nil {
+		return true
+	}
+	for _, p := range paths {
+		for _, e := range p.Effects {
+			if (e.Kind == "call" || e.Kind == "defer") && strings.HasSuffix(e.Callee, "(*sync.WaitGroup).Done") {
+				return true
+			}
+		}
+	}
+	return false
 }
 
 func ruleC10EntryRecover(c *Ctx) {
@@ -199,7 +263,7 @@ func ruleC10GoClosures(c *Ctx) {
 					c.Pass("c10.go-closure", key, c.P.Pos(g.Pos()), "defers a recover handler first; Done deferred")
 				}
 				// Add precedes go when the target signals a WaitGroup
-				if doneCalled {
+				if doneCalled && goTargetSignals(target, g) {
 					okAdd := false
 					for _, pin := range b.Instrs {
 						if pin == ssa.Instruction(g) {
